@@ -1125,12 +1125,29 @@ def K18_dimension_formula(rep, flow: Flow):
         if isinstance(a, ast.Assign) and isinstance(a.targets[0], ast.Name) and isinstance(a.value, ast.Subscript) and isinstance(a.value.value, ast.Attribute) and a.value.value.attr == "shape" \
                 and isinstance(a.value.slice, ast.Constant) and a.value.slice.value == 1:
             cols = a.targets[0].id
+    # (c) the free columns are sought among ALL columns: a loop that tests `i not in <pivot list>` runs over range(cols)
+    for lp in [x for x in ast.walk(g.node) if isinstance(x, ast.For) and isinstance(x.target, ast.Name)]:
+        tests = [t for t in ast.walk(lp) if isinstance(t, ast.Compare) and len(t.ops) == 1 and isinstance(t.ops[0], (ast.NotIn, ast.In)) and isinstance(t.left, ast.Name) and t.left.id == lp.target.id
+                 and isinstance(t.comparators[0], ast.Name) and t.comparators[0].id == piv]
+        if not tests or piv is None:
+            continue
+        it = lp.iter
+        full = isinstance(it, ast.Call) and isinstance(it.func, ast.Name) and it.func.id == "range" and len(it.args) == 1 and \
+            ((isinstance(it.args[0], ast.Name) and it.args[0].id == cols) or ast.unparse(it.args[0]).endswith(".shape[1]"))
+        if full:
+            rep.ok("K18", 1, nontrivial=("kernel", "free columns"), sample=f"null_space: free columns sought in {ast.unparse(it)}")
+        elif isinstance(it, ast.Call) and isinstance(it.func, ast.Name) and it.func.id == "range":
+            rep.finding("K18", "kernel:free-range", f"{pyfacts.where(g, lp)}: the free (non-pivot) columns are sought in `{ast.unparse(it)}` only, not among all {cols or 'cols'} columns: a free column outside that range (e.g. a zero first / last column) contributes no kernel vector, the basis is too small")
+        else:
+            raise AnalysisError(f"{pyfacts.where(g, lp)}: the loop that selects the free columns runs over `{ast.unparse(it)[:60]}`: whether that covers every column cannot be decided")
     derived = {}        # locals computed from the pivot list / column count alone, in statement order: name -> expression
     for st in g.node.body:
         if isinstance(st, ast.Assign) and len(st.targets) == 1 and isinstance(st.targets[0], ast.Name) and piv is not None and cols is not None:
             nm_ = {x.id for x in ast.walk(st.value) if isinstance(x, ast.Name)} - {"len", "np", "range", "set", "sorted", "list", "tuple", "int", "bool"}
             if nm_ and nm_ <= ({piv, cols} | set(derived)) and st.targets[0].id not in (piv, cols):
                 derived[st.targets[0].id] = st.value
+        if isinstance(st, (ast.For, ast.While)):
+            break       # what follows the loop that builds the basis is conditioned on the result, not an early exit
         if not (isinstance(st, ast.If) and any(isinstance(x, ast.Return) for x in st.body)):
             continue
         if derived and any(isinstance(x, ast.Name) and x.id in derived for x in ast.walk(st.test)):
